@@ -121,6 +121,12 @@ class Change:  # ChangeSet
 
     def _replace(self, filename, range, new_contend):
         source = self.change_recorder.get_source(filename)
+        if any(
+            r.range == range and r.text == new_contend for r in source.replacements
+        ):
+            # the same change of the same file (a file which is collected
+            # with two different paths, like a symbolic link)
+            return
         source.replacements.append(
             Replacement(range=range, text=new_contend, change_id=self.change_id)
         )
@@ -244,7 +250,9 @@ class ChangeRecorder:
         self._changes = []
 
     def get_source(self, filename) -> SourceFile:
-        filename = pathlib.Path(filename)
+        # a file can be reached with different paths (symbolic links),
+        # it has to be changed only once
+        filename = pathlib.Path(os.path.realpath(filename))
         if filename not in self._source_files:
             self._source_files[filename] = SourceFile(filename)
 
